@@ -51,6 +51,10 @@ FAMILY = [
     ("body", None, None, None, "PageTemplate", "PageTemplate"),
     ("class", None, None, "<p>${'<'} ${name}</p>", "PageTemplate", "PageTextTemplate"),
     ("class_module", None, None, '<p tal:content="hello">x</p>', "PageTemplate", "Alt:PageTemplate"),
+    # two classes of one name (a subclass edited between two releases, made
+    # by one factory) that differ in a class-level setting
+    ("class_level", None, None, '<p tal:content="hello">x</p>', "Alt3a:PageTemplate", "Alt3b:PageTemplate"),
+    ("class_level", None, None, '<p hidden="${name}">x</p>', "Alt4a:PageTemplate", "Alt4b:PageTemplate"),
     ("filename", "a.pt", "b.pt", "<p>${1/0}</p>", "PageTemplate", "PageTemplate"),
     # (the extension is part of the name that error reports give)
     ("filename", "a.pt", "a.txt", "<p>${1/0}</p>", "PageTemplate", "PageTemplate"),
@@ -90,6 +94,10 @@ FAMILY = [
     ("expression_types_factory", "FACT:A-", "FACT:B-", '<p tal:content="mark:name">x</p>', "PageTemplate", "PageTemplate"),
     # an instance whose representation is the default one (class and
     # address): the restarted process has a different one at the same address
+    # a bound method (what it does depends on its instance) and classes
+    # built with type() (one name for all of them)
+    ("tokenizer_bound_method", "METHOD:up", "METHOD:low", "<p>Hello</p>", "PageTemplate", "PageTemplate"),
+    ("expression_types_typed", "TYPED:A-", "TYPED:B-", '<p tal:content="mark:name">x</p>', "PageTemplate", "PageTemplate"),
     ("expression_types_quiet", "QUIET:Hello ", "QUIET:Bye ", '<p tal:content="greet:name">x</p>', "PageTemplate", "PageTemplate"),
     ("expression_types_instance", "INST:Hello ", "INST:Bye ", '<p tal:content="greet:name">x</p>', "PageTemplate", "PageTemplate"),
     # the content type a template falls back to when its body does not
@@ -138,6 +146,8 @@ OPTION_OF = {
     "expression_types_factory": "expression_types",
     "expression_types_instance": "expression_types",
     "expression_types_quiet": "expression_types",
+    "expression_types_typed": "expression_types",
+    "tokenizer_bound_method": "tokenizer",
     "tokenizer_lambda": "tokenizer",
     "extra_builtins_value": "extra_builtins",
     "extra_builtins_more": "extra_builtins",
@@ -316,6 +326,28 @@ TOK_D_UP = _tok_with(str.upper)
 TOK_D_LOW = _tok_with(str.lower)
 
 
+class Tok:
+    """Its bound method ``tok`` is given as tokenizer."""
+
+    def __init__(self, f):
+        self.f = f
+
+    def tok(self, body, filename=None):
+        return _tok(body, filename, self.f)
+
+
+TOK_M_UP = Tok(str.upper)
+TOK_M_LOW = Tok(str.lower)
+_TYPED: dict = {}
+
+
+def make_typed(mark: str):
+    """As make_mark, with ``type()``: the qualified name is plain ``Mark``,
+    nothing tells that a function made the class."""
+    Base = make_mark(mark)
+    return type("Mark", (Base,), {"__module__": __name__})
+
+
 def make_mark(mark: str):
     """A factory of expression-type classes: every class it returns has the
     same module and the same qualified name."""
@@ -399,6 +431,14 @@ class C15(CheckBase):
                        {"default_expression": "string",
                         "__module__": "verif_alt_package.pagetemplate"})
             self._alt = Alt
+            for tag_, attrs_ in (
+                    ("3a", {"default_expression": "string"}),
+                    ("3b", {"default_expression": "python"}),
+                    ("4a", {"boolean_attributes": {"hidden"}}),
+                    ("4b", {"boolean_attributes": set()})):
+                setattr(self, "_alt" + tag_, type(
+                    "SiteTemplate", (self.zt.PageTemplate,),
+                    dict(attrs_, __module__="verif_site.templates")))
             # one whose module's name ends as chameleon's begins
             self._alt2 = type("PageTemplate", (self.zt.PageTemplate,),
                               {"__module__": "n.zpt.template"})
@@ -426,6 +466,8 @@ class C15(CheckBase):
             return self._alt
         if name == "Alt2:PageTemplate":
             return self._alt2
+        if name.startswith("Alt") and name[3:5] in ("3a", "3b", "4a", "4b"):
+            return getattr(self, "_alt" + name[3:5])
         return getattr(zt, name)
 
     def _config(self, spec: dict) -> dict:
@@ -443,6 +485,16 @@ class C15(CheckBase):
             if k == "tokenizer" and isinstance(v, str) and \
                     v.startswith("LAMBDA:"):
                 v = TOK_UP if v.endswith("up") else TOK_LOW
+            if k == "tokenizer" and isinstance(v, str) and \
+                    v.startswith("METHOD:"):
+                v = (TOK_M_UP if v.endswith("up") else TOK_M_LOW).tok
+            if k == "expression_types" and isinstance(v, str) and \
+                    v.startswith("TYPED:"):
+                m_ = v[6:]
+                if m_ not in _TYPED:
+                    _TYPED[m_] = make_typed(m_)
+                v = dict(self.zt.PageTemplate.expression_types,
+                         mark=_TYPED[m_])
             if k == "tokenizer" and isinstance(v, str) and \
                     v.startswith("LAMBDA_D:"):
                 v = TOK_D_UP if v.endswith("up") else TOK_D_LOW
@@ -649,7 +701,7 @@ class C15(CheckBase):
                 ta = {"cls": ca, "body": body, "config": dict(common)}
                 tb = {"cls": cb, "body": body, "config": dict(common)}
                 if name not in ("class", "class_module", "body_near",
-                                "body_class_boundary"):
+                                "body_class_boundary", "class_level"):
                     # None means "option not passed at all"
                     if va is not None:
                         ta["config"][name] = va
@@ -661,7 +713,8 @@ class C15(CheckBase):
                     t_["file"] = "index.pt"
                     t_["dir"] = d_
             if name not in ("class", "class_module", "filename",
-                            "directory", "body_class_boundary") and \
+                            "directory", "body_class_boundary",
+                            "class_level") and \
                     ch.coin(0.35) and not any(
                         0xD800 <= ord(c_) <= 0xDFFF
                         for c_ in ta["body"] + tb["body"]):
